@@ -82,8 +82,26 @@ def _run_shard(args):
         if isinstance(w, dict) and isinstance(w.get("replay"), dict) and "kind" in w["replay"]:
             from . import replay as _replay
             _replay.evaluate(s, w["replay"])      # self-contained process-level replay
+        elif isinstance(w, dict) and "audit" in w:
+            from . import harness as _h
+            q = dict(w["audit"]["request"])
+            r1 = _h.run_all([dict(q)], _audit=False)[0]
+            r2 = _h.run_all([dict(q)], kind="ovf", _audit=False)[0]
+            if _h._norm(r1) != _h._norm(r2):
+                s.viol("%s:audit:replay" % prop, "release and checked build answer the request differently: %s vs %s" % (_h._norm(r1)[:300], _h._norm(r2)[:300]), w)
+            else:
+                s.inconc("the single request is answered alike by both builds; the witness was seen in the order %r within one process" % w["audit"]["order"])
+            s.case(key="audit-replay", nontrivial=True)
         else:
+            from . import harness as _h
+            from . import cli as _cli
+            _h.audit_begin("%s|%s|%s|%s" % (prop, tier, seed, params.get("name")))
+            _cli.MIX_CHECKED["runs"] = 0
             mod.shard(s, params)
+            if _cli.MIX_CHECKED["runs"]:
+                s.count("cli_runs_on_the_checked_build", _cli.MIX_CHECKED["runs"])
+            if "harness" in " ".join(getattr(mod, "NEEDS", [])):
+                _h.audit_check(s, prop)
     except build.BuildError as e:
         s.inconc("build: %s" % e)
     except Exception:
@@ -116,8 +134,12 @@ def run_check(prop, tier, seed, replay=None):
             kind, _, variant = need.partition(":")
             if kind == "cli":
                 build.cli(variant or "release")
+                if not variant and os.environ.get("VERIF_MIX_CHECKED", "on") != "off":
+                    build.cli("ovf")           # a quarter of the binary's runs go to the checked build
             elif kind == "harness":
                 build.harness(variant or "release")
+                if not variant and os.environ.get("VERIF_AUDIT", "on") != "off":
+                    build.harness("ovf")       # the audit pass answers a sample of requests again on the checked build
             elif kind == "shim":
                 build.shim()
     except build.BuildError as e:
